@@ -7,7 +7,7 @@ ls -d /verif/seeded/$G/ | xargs -n1 basename > /tmp/seed_matrix_list.$$
 run_one() {
   s=$1; k=$2
   d=/verif/seeded/$s; [ -f $d/patch.diff ] || return
-  c=$(echo $s | sed -E 's/^(R[0-9])?(C[0-9]+)-.*/\2/')
+  c=$(echo $s | sed -E 's/^(R[0-9]+)?(C[0-9]+)-.*/\2/')
   r=$(SEED_RUN=/tmp/seedrun_$k /verif/tools/seed_check_copy.sh $d $c 2>&1 | grep -v WARNING)
   if echo "$r" | grep -q "VIOLATION.*no-failing-input-found"; then v=nfi
   elif echo "$r" | grep -q "VIOLATION"; then v=witness
